@@ -98,6 +98,31 @@ PW_ATTRS = {("PW", "event"): ("pw_event", "EVENT"), ("PW", "start_dt"): ("pw_sta
             ("EVENT", "summary"): ("ev_summary", "SUM"), ("EVENT", "description"): ("ev_description", "ODESC"),
             ("EVENT", "reminders"): ("ev_reminders", "REMS")}
 
+REC_TYVARS = ["TZ", "TZNAME", "DV", "TIME", "TD", "EXD", "RR", "PART", "PAT", "MD", "SUM", "ODESC", "REMV", "GREMS", "GEV",
+              "CREATED", "ID", "RID", "CID", "CSUM", "AEV", "WRS"]
+REC_PARAMS = [("tz_utc", "TZ"), ("dv_fromtimestamp", "Z -> TZ -> DV"), ("dv_time", "DV -> TIME"), ("time_min", "TIME"),
+              ("time_neb", "TIME -> TIME -> bool"), ("td_of_seconds", "Z -> TD"), ("td_of_days", "Z -> TD"),
+              ("td_of_hours", "Z -> TD"), ("td_days", "TD -> Z"), ("td_sub", "TD -> TD -> TD"),
+              ("td_gtb", "TD -> TD -> bool"), ("dv_date", "DV -> DV"), ("dv_now", "TZ -> DV"),
+              ("dv_midnight", "DV -> DV"), ("dv_add", "DV -> TD -> DV"), ("dv_timestamp", "DV -> Z"),
+              ("dt_strftime_exdate", "DV -> EXD"),
+              ("parse_exdates_from_rrule", "RR -> RR * list EXD"), ("exd_eqb", "EXD -> EXD -> bool"),
+              ("mk_exdate_part", "list EXD -> PART"), ("rr_snoc", "RR -> PART -> RR"),
+              ("md_merge", "PAT -> MD -> MD"), ("pat_rrule_line", "PAT -> RR"), ("py_sorted", "list Z -> list Z"),
+              ("md_has_start", "MD -> bool"), ("md_start", "MD -> Z"), ("tz_name_eqb", "TZ -> TZ -> bool"),
+              ("tz_name", "TZ -> TZNAME"),
+              ("md_summary", "MD -> SUM"), ("md_description", "MD -> ODESC"), ("md_reminders", "MD -> REMV"),
+              ("remv_is_list", "REMV -> bool"), ("remv_all_reminders", "REMV -> bool"),
+              ("convert_reminders_to_gcsa", "REMV -> GREMS"), ("wrs_bad_reminders", "WRS"), ("wrs_no_id", "WRS"),
+              ("wrs_success", "AEV -> WRS"),
+              ("mk_gcsa_rec_event", "SUM -> DV -> DV -> option TZNAME -> ODESC -> option GREMS -> RR -> GEV"),
+              ("add_event", "GEV -> CREATED"), ("created_id", "CREATED -> option ID"),
+              ("mk_result_event",
+               "option ID -> CID -> CSUM -> SUM -> ODESC -> option RID -> bool -> option REMV -> Z -> Z -> AEV"),
+              ("pat_exdates", "PAT -> list Z"), ("pat_anchor_timestamp", "PAT -> option Z"), ("pat_zone", "PAT -> TZ"),
+              ("pat_start_seconds", "PAT -> Z"), ("pat_duration_seconds", "PAT -> Z"),
+              ("self_calendar_id", "CID"), ("self_calendar_summary", "CSUM"), ("self_calendar_timezone", "O:TZ")]
+
 SPECS_GCSA = [
     # ---- _infer_is_all_day
     dict(name="g_gcsa_infer_is_all_day", file=GCSA, func="_infer_is_all_day", kind="expr", ret="B", gx=True,
@@ -286,4 +311,67 @@ SPECS_GCSA = [
          attrs={**PW_ATTRS, ("EVENT", "calendar_id"): ("ev_calendar_id", "CID"),
                 ("EVENT", "calendar_summary"): ("ev_calendar_summary", "CSUM"),
                 ("PW", "start"): ("pw_start", "Z"), ("PW", "end"): ("pw_end", "Z")}),
+    # ---- Calendar._add_recurring (R11): under @_handle_write_errors (translated separately below)
+    dict(name="g_gcsa_add_recurring", file=GCSA, cls="Calendar", func="_add_recurring", kind="expr", ret="WRS", gx=True,
+         decorators_ok=["_handle_write_errors"],
+         file_has=[DT_IMPORT, "from calgebra.util import DAY"],
+         tyvars=REC_TYVARS, types=dict({k: k for k in REC_TYVARS}, DVPAIR="(DV * DV)", PARSED="(RR * list EXD)"),
+         tuples={"DVPAIR": ["DV", "DV"]}, truthy=["TZ", "ID"],
+         locals={"series_start_ts": "Z", "gcsa_reminders": "O:GREMS", "validated_reminders": "O:REMV"},
+         params=REC_PARAMS + [("pattern", "PAT"), ("metadata", "MD")],
+         selfattrs={"calendar_id": ("self_calendar_id", "CID"), "calendar_summary": ("self_calendar_summary", "CSUM"),
+                    "_calendar_timezone": ("self_calendar_timezone", "O:TZ")},
+         skip_stmts=["metadata['calendar_id'] = self.calendar_id",
+                     "metadata['calendar_summary'] = self.calendar_summary"],
+         patterns=[("{**_1.metadata, **_2}", "(md_merge {0} {1})", ["PAT", "MD"], "MD"),
+                   ("f'RRULE:{_1.to_rrule_string()}'", "(pat_rrule_line {0})", ["PAT"], "RR"),
+                   ("sorted(_1)", "(py_sorted {0})", ["L:Z"], "L:Z"),
+                   ("'start' in _1", "(md_has_start {0})", ["MD"], "B"),
+                   ("_1['start']", "(md_start {0})", ["MD"], "Z"),
+                   ("str(_1) == str(_2 or timezone.utc)",
+                    "(tz_name_eqb {0} (match {1} with Some v_ => v_ | None => tz_utc end))", ["TZ", "O:TZ"], "B"),
+                   ("_1.get('summary', 'Recurring Event')", "(md_summary {0})", ["MD"], "SUM"),
+                   ("_1.get('description')", "(md_description {0})", ["MD"], "ODESC"),
+                   ("_1.get('reminders')", "(md_reminders {0})", ["MD"], "REMV"),
+                   ("isinstance(_1, list)", "(remv_is_list {0})", ["REMV"], "B"),
+                   ("all((isinstance(r, Reminder) for r in _1))", "(remv_all_reminders {0})", ["REMV"], "B"),
+                   ("_error_result(TypeError('reminders metadata must contain Reminder objects'))",
+                    "wrs_bad_reminders", [], "WRS"),
+                   ("_error_result(ValueError('Google Calendar did not return an event ID'))", "wrs_no_id", [], "WRS"),
+                   ("str(_1)", "(tz_name {0})", ["TZ"], "TZNAME"),
+                   ("[WriteResult(success=True, event=_1, error=None)]", "(wrs_success {0})", ["AEV"], "WRS")],
+         calls={"_format_exdate": dict(coq="g_gcsa_format_exdate", pre=["tz_utc", "dv_fromtimestamp", "dt_strftime_exdate"],
+                                       args=["Z"], ret="EXD"),
+                "_add_exdate_to_rrule": dict(coq="g_gcsa_add_exdate_to_rrule",
+                                             pre=["parse_exdates_from_rrule", "exd_eqb", "mk_exdate_part", "rr_snoc"],
+                                             args=["RR", "EXD"], ret="RR"),
+                "datetime.now": ("dv_now", ["TZ"], "DV"),
+                "timedelta": dict(coq="td_of_seconds", args=[], kw=[("seconds", "Z")], ret="TD"),
+                "datetime.fromtimestamp": dict(coq="dv_fromtimestamp", args=["Z"], kw=[("tz", "TZ")], ret="DV"),
+                "_infer_is_all_day": dict(coq="g_gcsa_infer_is_all_day",
+                                          pre=["tz_utc", "dv_fromtimestamp", "dv_time", "time_min", "time_neb",
+                                               "td_of_seconds", "td_of_days", "td_of_hours", "td_days", "td_sub",
+                                               "td_gtb"],
+                                          args=["Z", "Z", "O:TZ"], ret="B"),
+                "_convert_timestamps_to_datetime": dict(coq="g_gcsa_convert_timestamps",
+                                                        pre=["tz_utc", "dv_fromtimestamp", "dv_date"],
+                                                        args=["Z", "Z", "B", "O:TZ"], ret="DVPAIR"),
+                "_convert_reminders_to_gcsa": ("convert_reminders_to_gcsa", ["REMV"], "GREMS"),
+                "GcsaEvent": dict(coq="mk_gcsa_rec_event", args=[],
+                                  kw=[("summary", "SUM"), ("start", "DV"), ("end", "DV"), ("timezone", "O:TZNAME"),
+                                      ("description", "ODESC"), ("reminders", "O:GREMS"), ("recurrence", "RR")],
+                                  ret="GEV"),
+                "self.calendar.add_event": dict(coq="add_event", args=["GEV"], fixed={"calendar_id": "self.calendar_id"},
+                                                ret="CREATED"),
+                "Event": dict(coq="mk_result_event", args=[],
+                              kw=[("id", "O:ID"), ("calendar_id", "CID"), ("calendar_summary", "CSUM"), ("summary", "SUM"),
+                                  ("description", "ODESC"), ("recurring_event_id", "O:RID"), ("is_all_day", "B"),
+                                  ("reminders", "O:REMV"), ("start", "Z"), ("end", "Z")], ret="AEV")},
+         attrs={("PAT", "exdates"): ("pat_exdates", "L:Z"), ("PAT", "anchor_timestamp"): ("pat_anchor_timestamp", "OZ"),
+                ("PAT", "zone"): ("pat_zone", "TZ"), ("PAT", "start_seconds"): ("pat_start_seconds", "Z"),
+                ("PAT", "duration_seconds"): ("pat_duration_seconds", "Z"), ("CREATED", "id"): ("created_id", "O:ID")},
+         methods={("DV", "replace"): dict(coq="dv_midnight", args=[],
+                                          fixed={"hour": "0", "minute": "0", "second": "0", "microsecond": "0"}, ret="DV"),
+                  ("DV", "timestamp"): dict(coq="dv_timestamp", args=[], ret="Z")},
+         binops={("DV", "+", "TD"): ("dv_add", "DV")}),
 ]
